@@ -333,7 +333,7 @@ func (env *Env) selectField(v Term, name string) Term {
 		fty := f.Type()
 		if isPtr {
 			if _, isS := fty.Underlying().(*types.Struct); isS {
-				cur = mk(app("sub", cur.S, fmt.Sprint(fi)), SInt, types.NewPointer(fty))
+				cur = mk(app("sub", cur.S, fmt.Sprint(fi)), SRef, types.NewPointer(fty))
 				curT = fty
 				continue
 			}
@@ -1069,7 +1069,7 @@ func (env *Env) specCall(sf *SpecFunc, argx []ast.Expr) Term {
 		sorts = append(sorts, string(a.Sort))
 	}
 	anchor := ""
-	if len(args) > 0 && args[0].Sort == SInt {
+	if len(args) > 0 && (args[0].Sort == SRef || (args[0].Sort == SInt && args[0].T != nil && isRefLike(args[0].T))) {
 		anchor = args[0].S
 	}
 	ra, rs := env.e.p.readArgs(u, sf.Reads, env.heap, anchor)
